@@ -302,5 +302,5 @@ PROPS.update(PROPS_THREADS)
 EXTERNAL.update(EXTERNAL_THREADS)
 
 # properties whose theorem files are still being proved are not claimed yet
-for _p in ('C02', 'C03'):
+for _p in ():
     PROPS[_p]['claimed'] = False
